@@ -549,6 +549,145 @@ static void ma_case(Ctx& ctx, int n, int len) {
     if (len > 2 * n) ctx.note("mafilter: input passes >= 2 re-accumulations");
 }
 
+// ------------------------------------------------------------------------------------------------ FftFilter call sequences
+// "the FFT-based filter emits the same sequence as the direct one in multiples of its block size" over several calls, from
+// rest: one fixed stream per input letter; every call sequence feeds a prefix of it, so the long-double defining sum and the
+// FirFilter output (one call on the whole stream; both are causal) are computed once and compared prefix-wise.  After every
+// call the samples emitted so far must number floor(fed/bs)*bs (bs = block_size() as reported) and equal the defining sum.
+static void fftseq_case(Ctx& ctx, bool cplx, int nh, int block, int fftlen, bool full) {
+    const Sig c = coef_letter("dense", 0, nh, cplx);
+    const double cn = (double)c.norm2();
+    // call sequences
+    std::vector<std::vector<int>> seqs;
+    std::vector<int> vals = full ? std::vector<int>{1, block - 1, block, block + 1, 2 * block, 2 * block + 3}
+                                 : std::vector<int>{1, block - 1, block, block + 1};
+    for (int a : vals)
+        for (int b : vals)
+            for (int d : vals) seqs.push_back({a, b, d});
+    for (int r = 1; r <= std::min(block - 1, 8); ++r) seqs.push_back({r, block, block, 2 * block - r});
+    const int maxlen = std::max(3 * (2 * block + 3), 4 * block);
+    const char* site = "FftFilter::process";
+    struct Stream {
+        std::string kind;
+        int p;
+    };
+    const Stream streams[] = {{"lcg", 0}, {"imp", 0}, {"imp", block}};
+    double worst_fft = 0, worst_vs = 0;
+    long calls = 0;
+    bool stop = false;
+    for (const auto& st : streams) {
+        if (stop) break;
+        const Sig x = in_letter(st.kind, st.p, maxlen, cplx);
+        Sig ref;
+        std::vector<double> S;
+        fir_ref(c, x, cplx, ref, S);
+        // prefix norms of the stream (tolerances use the norm of what has been fed)
+        std::vector<double> pn((size_t)maxlen + 1, 0.0);
+        {
+            ld acc = 0;
+            for (int i = 0; i < maxlen; ++i) {
+                acc += x.re[(size_t)i] * x.re[(size_t)i] + x.im[(size_t)i] * x.im[(size_t)i];
+                pn[(size_t)i + 1] = (double)sqrtl(acc);
+            }
+        }
+        // direct filter on the whole stream
+        Sig dir;
+        dir.resize((size_t)maxlen);
+        bool have_dir = false;
+        try {
+            if (!cplx) {
+                dsplib::FirFilterR f(to_real(c));
+                arr_real yd = f.process(to_real(x));
+                if (yd.size() == maxlen) {
+                    for (int i = 0; i < maxlen; ++i) dir.re[(size_t)i] = yd[i];
+                    have_dir = true;
+                }
+            } else {
+                dsplib::FirFilterC f(to_cmplx(c));
+                arr_cmplx yd = f.process(to_cmplx(x));
+                if (yd.size() == maxlen) {
+                    for (int i = 0; i < maxlen; ++i) dir.re[(size_t)i] = yd[i].re, dir.im[(size_t)i] = yd[i].im;
+                    have_dir = true;
+                }
+            }
+        } catch (const std::exception&) {
+        }
+        if (!have_dir) {
+            ctx.fail(cplx ? "FirFilterC::process" : "FirFilterR::process", "no output of the stream length", fmt("%d samples", maxlen),
+                     P().kv("in", st.kind).kv("pos", st.p).kv("what", "direct"));
+            break;
+        }
+        const arr_real xr = to_real(x), hr = to_real(c);
+        const arr_cmplx xc = to_cmplx(x), hc = to_cmplx(c);
+        for (const auto& sq : seqs) {
+            if (stop) break;
+            const P det = P().kv("in", st.kind).kv("pos", st.p).list("calls", sq);
+            try {
+                dsplib::FftFilter ff = cplx ? dsplib::FftFilter(hc) : dsplib::FftFilter(hr);
+                const int bs = ff.block_size();
+                if (bs < 1) {
+                    ctx.fail("FftFilter::block_size", fmt("%d", bs), ">= 1", P(det).kv("what", "block"));
+                    stop = true;
+                    break;
+                }
+                std::vector<double> ore, oim;
+                long fed = 0;
+                bool bad = false;
+                for (size_t ci = 0; ci < sq.size() && !bad; ++ci) {
+                    const int n = sq[ci];
+                    long got;
+                    if (!cplx) {
+                        arr_real in(n);
+                        for (int i = 0; i < n; ++i) in[i] = xr[(int)fed + i];
+                        arr_real out = ff.process(in);
+                        got = out.size();
+                        for (int i = 0; i < out.size(); ++i) ore.push_back(out[i]), oim.push_back(0.0);
+                    } else {
+                        arr_cmplx in(n);
+                        for (int i = 0; i < n; ++i) in[i] = xc[(int)fed + i];
+                        arr_cmplx out = ff.process(in);
+                        got = out.size();
+                        for (int i = 0; i < out.size(); ++i) ore.push_back(out[i].re), oim.push_back(out[i].im);
+                    }
+                    fed += n;
+                    ++calls;
+                    const long want = (fed / bs) * bs;
+                    if ((long)ore.size() != want) {
+                        ctx.fail(site, fmt("%zu samples emitted after call %zu (this call: %ld), %ld fed", ore.size(), ci + 1, got, fed),
+                                 fmt("floor(fed/block_size)*block_size = %ld", want), P(det).kv("call", (long)ci + 1).kv("what", "size"));
+                        bad = true;
+                    }
+                }
+                if (bad) continue;
+                const long nout = (long)ore.size();
+                const double g_fft = 64.0 * ilog2(fftlen) * EPS * cn * pn[(size_t)fed];
+                const double g_dir = 8.0 * EPS * cn * pn[(size_t)fed];
+                Cmp r = compare(nout, [&](long i) { return ore[(size_t)i]; }, [&](long i) { return oim[(size_t)i]; }, ref, [&](long) { return g_fft; });
+                worst_fft = std::max(worst_fft, r.worst_ratio);
+                if (r.bad >= 0) {
+                    ctx.fail(site,
+                             r.nonfinite ? fmt("non-finite output at i=%ld", r.bad)
+                                         : fmt("calls %s: |y[%ld]-sum| = %.3g", show(sq).c_str(), r.bad, r.err_at),
+                             fmt("<= %.3g (rounding accuracy)", r.tol_at), P(det).kv("i", r.bad).kv("what", "fft"));
+                    continue;
+                }
+                Cmp q = compare(nout, [&](long i) { return ore[(size_t)i]; }, [&](long i) { return oim[(size_t)i]; }, dir,
+                                [&](long i) { return g_fft + std::max(g_dir, (nh + 8.0) * EPS * S[(size_t)i]); });
+                worst_vs = std::max(worst_vs, q.worst_ratio);
+                if (q.bad >= 0)
+                    ctx.fail(site, fmt("calls %s: |y[%ld]-FirFilter| = %.3g", show(sq).c_str(), q.bad, q.err_at), fmt("<= %.3g", q.tol_at),
+                             P(det).kv("i", q.bad).kv("what", "fft-vs-direct"));
+            } catch (const std::exception& e) {
+                ctx.fail(site, fmt("exception: %s", e.what()), "no exception", P(det).kv("what", "throw"));
+            }
+        }
+    }
+    ctx.worst("fft multi-call err/tol", worst_fft);
+    ctx.worst("fft multi-call vs direct diff/tol", worst_vs);
+    ctx.note(fmt("fftfilter.seq calls %s", cplx ? "complex" : "real"), calls);
+    ctx.nontrivial();
+}
+
 // ------------------------------------------------------------------------------------------------ main
 int main(int argc, char** argv) {
     Ctx ctx;
@@ -597,6 +736,19 @@ int main(int argc, char** argv) {
                 }
             }
         }
+    }
+
+    // ---- FftFilter fed in several calls (pending samples, aligned and unaligned frames)
+    {
+        std::vector<int> nhs;
+        for (int nh = 2; nh <= 64; ++nh) nhs.push_back(nh);
+        for (int nh : {100, 127, 128, 129, 255, 256, 257, 512, 1024}) nhs.push_back(nh);
+        for (int nh : nhs)
+            for (int cplx = 0; cplx < 2; ++cplx) {
+                if (!ctx.take("fftfilter.seq", P().kv("cplx", cplx).kv("nh", nh))) continue;
+                const int fftlen = 1 << ilog2(2L * nh);
+                fftseq_case(ctx, cplx != 0, nh, fftlen - nh + 1, fftlen, true);
+            }
     }
 
     // ---- xcorr: all length pairs with all impulse pairs + dense letters
